@@ -14,6 +14,14 @@ def _last(st, name):
     return hits[-1][1] if hits else None
 
 
+def _compared_timestamp(ex, st, obj):
+    """the time stamp the decision is taken on: the value right after the metadata was loaded (a stale tile's metadata is
+    forgotten afterwards)"""
+    resets = [e for e in st.trace if e.name in ('setattr:timestamp',)]
+    v = ex.opaque_field_at(st, resets[0], obj, 'timestamp') if resets else ex.opaque_field(st, obj, 'timestamp')
+    return v.val.t if hasattr(v, 'isnone') else v.t
+
+
 def _is_cached_spec(ex, st, post, result):
     import z3
     tile = post.env['tile']
@@ -33,8 +41,8 @@ def _is_cached_spec(ex, st, post, result):
     T_ = thr.result           # opt[real]
     none_T = T_.isnone
     yield ('no_threshold', z3.Implies(none_T, res == cached), 'no threshold: is_cached == backend has it')
-    ts = ex.opaque_field(st, tile, 'timestamp').t
     meta = T.evs(st, 'load_tile_metadata')
+    ts = _compared_timestamp(ex, st, tile)
     yield ('stale_at_or_before_threshold',
            z3.Implies(z3.And(cached, z3.Not(none_T), ts >= 0, ts <= T_.val.t), z3.Not(res)),
            'a tile last written at or before the threshold is not "cached" (it is fetched again)')
@@ -44,6 +52,16 @@ def _is_cached_spec(ex, st, post, result):
     yield ('timestamp_from_backend_metadata',
            z3.Implies(z3.And(cached, z3.Not(none_T)), z3.BoolVal(len(meta) == 1)),
            'with a threshold, the timestamp compared is the one loaded from the backend metadata')
+    # C20: a tile that is going to be re-created does not keep the validators of the version it replaces
+    from pyvc.values import VNone
+    rts = [e for e in st.trace if e.name == 'setattr:timestamp']
+    rsz = [e for e in st.trace if e.name == 'setattr:size']
+    forgot = len(rts) == 1 and len(rsz) == 1 and isinstance(rts[0].args[1], VNone) and isinstance(rsz[0].args[1], VNone) \
+        and bool(meta) and rts[0].recv is not None and hasattr(meta[-1][1].args[0], 't') and rts[0].recv.t.eq(meta[-1][1].args[0].t)
+    stale = z3.And(cached, z3.Not(none_T), z3.Not(res))
+    yield ('stale_metadata_is_forgotten', z3.And(z3.Implies(stale, z3.BoolVal(bool(forgot))), z3.Implies(z3.Not(stale), z3.BoolVal(not rts and not rsz))),
+           'when an existing tile is found stale, the time stamp and size loaded from the old version are cleared on the tile object '
+           '(so the re-created tile gets validators of its own); otherwise the loaded metadata stay')
 
 
 def _s10_class(ex, st):
@@ -56,7 +74,7 @@ def _s10_class(ex, st):
     # the tile object may have been rebound (tuple -> Tile); use the object whose metadata was loaded
     meta = T.evs(st, 'load_tile_metadata')
     obj = meta[-1][1].args[0] if meta else tile
-    ts = ex.opaque_field(st, obj, 'timestamp').t
+    ts = _compared_timestamp(ex, st, obj)
     Tv = thr.result.val.t
     return z3.And(z3.ToReal(z3.ToInt(ts)) <= Tv, Tv < ts)
 
